@@ -110,6 +110,11 @@ func version(id, name string, a bool) detection.Signature { return versionFor(id
 
 func versionFor(id, name string, a, jsonBackend bool) detection.Signature {
 	s := detection.Signature{ID: id, Name: name, Severity: "HIGH", EntropyTolerance: 0.5}
+	if id == "Y" {
+		// no tolerance of its own: every scan falls back to the scanner-wide tolerance, which
+		// a writer changes concurrently (entropies are equal, so the verdict never depends on it)
+		s.EntropyTolerance = 0
+	}
 	if !a && !jsonBackend {
 		s.TopologyHash = "00ff00ff00ff00ff00ff00ff00ff00ff"
 		s.FuzzyHash = "B9L9BR9P9R9"
